@@ -124,7 +124,7 @@ PROPS = {
           quick=(8, 14), thorough=(16, 250)),
  "C04": P("TestC04", "exploration",
           "rapid generates timeline chains (all eras: burns, mining, conversions, PEG bank), issuance chains (developer rewards on both sides of 2.0.2, zeroing of both burn addresses with prior balances, mint and mint burn) "
-          "and 2.0.2+ chains crossing snapshot heights (holder payouts), with transfers to 1-3 recipients, to self and to the burn address. Oracle per block and asset: observed supply delta (sum over pn_addresses, read from the "
+          "2.0.2+ chains crossing snapshot heights (holder payouts), the PEG-bank chains of C16 (over-subscribed banks, refunds) and the staking chains of C14, with transfers to 1-3 recipients, to self and to the burn address. Oracle per block and asset: observed supply delta (sum over pn_addresses, read from the "
           "implementation) == sum of the block's protocol events computed by the reference model from the raw chain; and every address's balance equals the model's (so a transfer changes exactly sender and named recipients; "
           "a balance change without any event is reported). Non-trivial = every case (all have blocks with >= 2 event types, counted); distinct by chain.",
           quick=(8, 12), thorough=(16, 220)),
@@ -139,7 +139,7 @@ PROPS = {
           "rapid generates 2.0 chains crossing the developer-reward (1%/0.1% -> 10% band) and 2.0.2 (25% band with zeroing) activations in which every block has OPR and/or SPR winners, the SPR vector being per asset equal / inside / "
           "just inside / just outside either edge (the two neighbouring integers on either side of the boundary, or 0.01% / 0.04% away) / far outside the band around the OPR vector, a third of the perturbations aimed at assets "
           "priced below the 100000 threshold that separates the 1% and 0.1% bands of the first rule set, and SPR values placed at 99998..100050 with the OPR value 0.5% away (out-of-band blocks before 2.0.2 also trigger the "
-          "registered finding C11/band-early-return; they are kept, thinned to a third, since the recorded rates are still as specified), with conversions pending across blocks without rates; and timeline chains covering the PEG pricing "
+          "registered finding C11/band-early-return; they are kept, thinned to a third, since the recorded rates are still as specified), with conversions pending across blocks without rates; 2.0.2+ chains in which half of the blocks have no winners while conversions wait, running on to a snapshot height (a block without winners executes no pending conversion: zero-delta watch events on the waiting batches); and timeline chains covering the PEG pricing "
           "phases zero / equation (non-trivial supplies) / floating. Oracle: pn_rate rows of every height == rows the reference model derives from the grader's winners (band comparison replayed in float64 with a 1e-12 edge "
           "neighbourhood as don't-care; equation price with math/big over supplies at h-1); heights without winners have no rows; after the run every rated height still shows its rows and no other height has rows (immutability). "
           "Non-trivial = both winners present and an asset outside or near the band, or a timeline chain; distinct by (start, shape).",
@@ -147,11 +147,11 @@ PROPS = {
  "C13": P("TestC13", "exploration",
           "rapid places one activation A (OneWaypFCT / PegNet 2.0 / OneWaySmallAssets+2.0.2 / PIP-10 with a 4-block window) mid-chain; one address is funded with every asset of the era; 20-60 drawn (source, destination) pairs "
           "(a third aimed at PEG, pFCT and small-cap destinations) are submitted so that they execute at A-1, A and A+1. thorough additionally runs ALL ordered pairs of the era's assets at the three heights in a quarter of the cases. "
-          "PIP-10 family: 1-3 assets are zeroed by the 25% band rule in most blocks before A and in some of the submitting blocks, and a third of the pairs go into or out of them, so that conversions meet a zero rate, "
+          "PIP-10 family (two shares in five; window 4/2, or 16 with 5-10 required so that it is never full and 'missing' counts absent heights and zero rates together): 1-3 assets are zeroed by the 25% band rule in most blocks before A and in some of the submitting blocks, and a third of the pairs go into or out of them, so that conversions meet a zero rate, "
           "or a spot rate that is back while the rolling average is still unavailable (on either side). "
           "Oracle (reference model): forbidden -> the specific negative code and no balance change (a zero-delta watch event attributes any change of the two balances of a refused or unconvertible held conversion to C13); "
           "allowed and funded -> executed with the C07 amount. Non-trivial = the case has both forbidden and allowed conversions; distinct by (start, activation, counts).",
-          quick=(8, 10), thorough=(16, 60)),
+          quick=(8, 20), thorough=(16, 80)),
  "C14": P("TestC14", "exploration",
           "rapid generates 2.0.2+ chains crossing 2-3 snapshot heights: 6-20 holders of 7 different assets (a quarter with exactly equal holdings), stake below or above the 4500x144 PEG cap (PEG priced 500-6000 USD when the conversions "
           "execute), 0-4 movements between snapshots (out, to addresses absent from the previous snapshot, conversions between staked assets), snapshot heights without rates (half of them right after a graded block whose "
@@ -168,7 +168,7 @@ PROPS = {
           "address at a payout height is C15's (zero-delta watch events). Non-trivial = a burn address with a balance is zeroed or >= 2 developer payouts; distinct by (start, activations, shape).",
           quick=(8, 10), thorough=(16, 150)),
  "C16": P("TestC16", "exploration",
-          "rapid generates legacy chains (PegnetConversionLimit active, V4 update 4-12 blocks in, PegNet 2.0 never): 12 addresses funded by FCT burns, 0-6 PEG requests per block sized at 1%-150% of the 5,000 PEG bank (a quarter "
+          "rapid generates legacy chains (PegnetConversionLimit active from the start or, in a third of the chains, activating 3+ blocks in so that requests written before it execute at the activation block; V4 update 4-12 blocks in, PegNet 2.0 never): 12 addresses funded by FCT burns, 0-6 PEG requests per block sized at 1%-150% of the 5,000 PEG bank (a quarter "
           "repeating the previous amount exactly), several requests in one batch, requests spread over ungraded blocks, other conversions and transfers. Oracle (reference model): per request yield (full below the bank, "
           "proportional + dust to the highest request / lowest txid otherwise), refund = convert(maxYield - yield) back to the source asset, per-height processing before V4 and pooled processing after, pn_bank rows "
           "(amount, used, requested). Non-trivial = >= 2 requests and a block whose total reaches the bank; distinct by (start, shape).",
@@ -178,7 +178,7 @@ PROPS = {
           "O1 status <=> effect: the daemon runs next to the reference model; every batch's executed column must equal the model's verdict (execution height / specific negative code / 0 while waiting) and to_amount / PEG yield / refund the "
           "model's amounts. O2 history replay: starting from empty balances, every recorded action with executed > 0 (transfers with their outputs minus burn-address outputs, conversions with the recorded to_amount and refunds, coinbases "
           "incl. negative zeroing rows, FCT burns), applied per execution height together with the three adjustments that by design have no rows (2.0.2 burn zeroing, mint, mint burn), must reproduce pn_addresses exactly. "
-          "O3 paging through the REAL JSON-RPC server: for the 12 busiest addresses (ascending and descending), 25 sampled entry hashes and 15 heights, following nextoffset from 0 returns every recorded action (cross-checked with an "
+          "O3 paging through the REAL JSON-RPC server (what an address query must return is derived from the action rows — sender and output addresses of every action — and compared with the address index the API reads through): for the 12 busiest addresses (ascending and descending), 25 sampled entry hashes and 15 heights, following nextoffset from 0 returns every recorded action (cross-checked with an "
           "independent SQL read) exactly once, count equals the number returned, and every field the API reports for an action (hash, index, executed, action type, from address/asset/amount, to asset/amount, outputs, timestamp) "
           "equals the history tables and is the same in every query that returns it. Non-trivial = every case (all contain executed, rejected and pending batches by construction of the generators; counted); distinct by chain.",
           quick=(8, 10), thorough=(16, 150)),
